@@ -31,10 +31,10 @@ Definition refs_of (fl : file) (n : string) : list (string * list (string * stri
 
 (* F17a: in the append pass the formula_terms attribute was never written *)
 Theorem formula_terms_old_refuted :
-  refs_of (fst (append old_code true empty [] [fz])) "z" = [] /\
-  refs_of (fst (append new_code true empty [] [fz])) "z" = [("formula_terms", [("a", "a")])] /\
-  map v_name (data_vars (fst (append old_code true empty [] [fz]))) = ["a"; "ta"] /\
-  map v_name (data_vars (fst (append new_code true empty [] [fz]))) = ["ta"].
+  refs_of (fst (append old_code true no_opts empty [] [fz])) "z" = [] /\
+  refs_of (fst (append new_code true no_opts empty [] [fz])) "z" = [("formula_terms", [("a", "a")])] /\
+  map v_name (data_vars (fst (append old_code true no_opts empty [] [fz]))) = ["a"; "ta"] /\
+  map v_name (data_vars (fst (append new_code true no_opts empty [] [fz]))) = ["ta"].
 Proof. vm_compute. repeat split. Qed.
 
 (* F17c: a field whose featureType is not the file's was appended ... *)
@@ -69,7 +69,7 @@ Proof. vm_compute. repeat split. Qed.
 Definition commented : field := mk_f "q2" [("comment", "hello"); ("units", "1")] [] [] [] [] None.
 Theorem props_kept_or_held_old_refuted :
   exists gatts fs f a x, In f fs /\ prop_of (f_props f) a = Some x /\
-    ~ kept_or_held gatts (compute_gl old_code gatts fs) a x.
+    ~ kept_or_held gatts (compute_gl old_code no_opts gatts fs) a x.
 Proof.
   exists [("Conventions", "CF-1.11")], [commented], commented, "comment", "hello".
   split; [left; reflexivity|]. split; [reflexivity|].
@@ -81,12 +81,12 @@ Qed.
 Definition dc (t : Z) : cst := mk_k None (mk_c KDim [("units", "km")] [2%Z] t) [0%nat].
 Definition fd (nv : string) (t : Z) : field :=
   mk_f nv [("units", "1")] [] [{| a_size := 2; a_ncdim := Some "d" |}] [dc t] [] None.
-Definition file_d : file := fst (append new_code true empty [] [fd "q" 0]).
+Definition file_d : file := fst (append new_code true no_opts empty [] [fd "q" 0]).
 
 Theorem dimension_name_old_refuted :
-  snd (append old_code true file_d [fd "q" 0] [fd "q" 1]) = Failed /\
-  snd (append new_code true file_d [fd "q" 0] [fd "q" 1]) = Done /\
-  map fst (d_dims (fst (append new_code true file_d [fd "q" 0] [fd "q" 1]))) = ["d"; "d_1"].
+  snd (append old_code true no_opts file_d [fd "q" 0] [fd "q" 1]) = Failed /\
+  snd (append new_code true no_opts file_d [fd "q" 0] [fd "q" 1]) = Done /\
+  map fst (d_dims (fst (append new_code true no_opts file_d [fd "q" 0] [fd "q" 1]))) = ["d"; "d_1"].
 Proof. vm_compute. repeat split. Qed.
 
 (* OPEN (repaired code too): the coordinate that owns the formula terms equals
@@ -94,18 +94,40 @@ Proof. vm_compute. repeat split. Qed.
    given the formula_terms attribute: the terms become extra data variables *)
 Definition fz_plain : field :=
   mk_f "tb" [("units", "K")] [] [{| a_size := 2; a_ncdim := None |}] [zk] [] None.
-Definition file_z : file := fst (append new_code true empty [] [fz_plain]).
+Definition file_z : file := fst (append new_code true no_opts empty [] [fz_plain]).
 
 Theorem formula_terms_on_shared_coordinate_refuted :
-  snd (append new_code true file_z [fz_plain] [fz]) = Done /\
-  refs_of (fst (append new_code true file_z [fz_plain] [fz])) "z" = [] /\
+  snd (append new_code true no_opts file_z [fz_plain] [fz]) = Done /\
+  refs_of (fst (append new_code true no_opts file_z [fz_plain] [fz])) "z" = [] /\
   map v_name (data_vars file_z) = ["tb"] /\
-  map v_name (data_vars (fst (append new_code true file_z [fz_plain] [fz]))) = ["tb"; "a"; "ta"].
+  map v_name (data_vars (fst (append new_code true no_opts file_z [fz_plain] [fz]))) = ["tb"; "a"; "ta"].
 Proof. vm_compute. repeat split. Qed.
 
 (* non-vacuity of the sharing theorems: the same request with a new z
    coordinate shares nothing, with the same one it shares z *)
 Theorem sharing_example :
-  map v_name (d_vars (fst (append new_code true file_z [fz_plain] [fz_plain]))) = ["z"; "tb"; "tb_1"] /\
-  map v_dims (d_vars (fst (append new_code true file_z [fz_plain] [fz_plain]))) = [["z"]; ["z"]; ["z"]].
+  map v_name (d_vars (fst (append new_code true no_opts file_z [fz_plain] [fz_plain]))) = ["z"; "tb"; "tb_1"] /\
+  map v_dims (d_vars (fst (append new_code true no_opts file_z [fz_plain] [fz_plain]))) = [["z"]; ["z"]; ["z"]].
+Proof. vm_compute. repeat split. Qed.
+
+(* non-vacuity of the old-fields theorem: the re-read of file_z covers it *)
+Theorem covers_example : covers new_code file_z [fz_plain] = true /\ map v_name (data_vars file_z) = ["tb"].
+Proof. vm_compute. split; reflexivity. Qed.
+
+(* the hypothesis is needed: were the re-read to present the data variable
+   "tb" as the variable of an auxiliary coordinate, an appended field with an
+   equal auxiliary coordinate would name "tb" in its coordinates attribute and
+   "tb" would no longer be read as a field *)
+Definition xaux (nv : option string) : cst := mk_k nv (mk_c KAux [("long_name", "x")] [2%Z] 5) [0%nat].
+Definition f_lying : field :=
+  {| f_ncvar := Some "other"; f_props := []; f_gl := []; f_groups := []; f_axes := [{| a_size := 2; a_ncdim := None |}];
+     f_daxes := [0%nat]; f_tok := 2; f_dim := [zk]; f_aux := [xaux (Some "tb")]; f_anc := []; f_msr := []; f_ref := None |}.
+Definition f_newaux : field :=
+  {| f_ncvar := Some "new"; f_props := []; f_gl := []; f_groups := []; f_axes := [{| a_size := 2; a_ncdim := None |}];
+     f_daxes := [0%nat]; f_tok := 3; f_dim := [zk]; f_aux := [xaux None]; f_anc := []; f_msr := []; f_ref := None |}.
+Theorem old_fields_needs_covers_refuted :
+  covers new_code file_z [f_lying] = false /\
+  snd (append new_code true no_opts file_z [f_lying] [f_newaux]) = Done /\
+  map v_name (data_vars file_z) = ["tb"] /\
+  map v_name (data_vars (fst (append new_code true no_opts file_z [f_lying] [f_newaux]))) = ["new"].
 Proof. vm_compute. repeat split. Qed.
